@@ -7,11 +7,17 @@ package reads:
      variance == float(std)**2, the column's unit, None where blank; Atom: z == int(Z field) and
      == position of the element symbol in the periodic table, mass only for isotope rows, weight
      only where the element row has one;
-  2. near misses of every name that are not themselves first-column names must be rejected;
-  3. the attenuation coefficient equals n*(sigma_s + sigma_a*lambda/1.7982 angstrom) in 1/length;
+  2. near misses of every name that are not themselves first-column names must be rejected
+     (c20_names.py: prefixes, suffixes, case changes, blanks, digits / punctuation / non-letter tails before and
+     after the name, swapped mass number, a non-letter inside the symbol — all classes for every name);
+  3. the attenuation coefficient equals n*(sigma_s + sigma_a*lambda/1.7982 angstrom) in 1/length for
+     wavelengths of dtype float64 / float32 / int64 / int32 in m, mm, cm, km, um, nm, angstrom, pm, fm (scalar
+     and 1-d), densities and cross-sections in several units and dtypes;
   4. the tables equal the pinned snapshot (tools/corpus/C20) line by line — for each differing
      line: the row, and what the implementation now returns for its name.
-stdin : {"snapshot": dir, "seed": int}
+stdin : {"snapshot": dir, "seed": int, "broken": [names of the broken obligations],
+         "steps": ["rows", "near_misses", "attenuation", "snapshot_differences"] (default: all),
+         "chunk": [i, n] (near misses: only every n-th name starting at i; the caller runs n processes)}
 stdout: 'RESULT {"failures": [{"key", "what", "replay"}], "checked": {...}}'   (at most a few per class)
 """
 import json
@@ -21,7 +27,9 @@ import random
 import sys
 
 sys.path.insert(0, os.path.dirname(os.path.abspath(__file__)))
+import numpy as np  # noqa: E402
 import scipp as sc  # noqa: E402
+from c20_names import near_misses  # noqa: E402
 from kernels_impl import unit_info  # noqa: E402
 
 import scippneutron.atoms as atoms  # noqa: E402
@@ -139,6 +147,10 @@ def check_rows(tabs):
             except ValueError:
                 z = None
             z_pt = PERIODIC.index(el) + 1 if el in PERIODIC else None
+            if not hasattr(a, 'isotope') or not hasattr(a, 'z'):
+                fail('atom:exact:unreadable', f'Atom.for_isotope({name!r}) returned {a!r} which has no isotope / z',
+                     {'api': 'atom', 'name': name, 'row': r})
+                continue
             if a.isotope != name or a.z != z or z != z_pt:
                 fail('atom:exact:z', f'Atom.for_isotope({name!r}) has isotope={a.isotope!r}, z={a.z!r}; the table says Z={er[1]!r} '
                      f'and {el!r} is element number {z_pt} of the periodic table',
@@ -147,10 +159,14 @@ def check_rows(tabs):
                 w = a.atomic_weight
             except ValueError:
                 w = None
+            except Exception as ex:
+                w = f'raises {type(ex).__name__}: {ex}'
             try:
                 m = a.atomic_mass
             except ValueError:
                 m = None
+            except Exception as ex:
+                m = f'raises {type(ex).__name__}: {ex}'
             ok, want = qty_ok(w, er[2], er[3], 'Da')
             if not ok:
                 fail('atom:exact:weight', f'Atom.for_isotope({name!r}).atomic_weight is {show(w)} but the element row says {want}',
@@ -166,74 +182,118 @@ def check_rows(tabs):
     return checked
 
 
-def near(n):
-    v = []
-    if len(n) > 1:
-        v += [n[:-1], n[1:]]
-    v += [n + 'x', n + n[-1:], n + '0', n.swapcase(), n.lower(), n.upper(), ' ' + n, n + ' ', n + '\n', '\t' + n,
-          '0' + n, n + ',', n + ',1.0']
-    return v
-
-
-def check_near(tabs):
-    first = {t: {r[0] for r in tabs[t]} for t in tabs}
+def near_names(tabs, rng):
+    """[(variant, kind, real name it derives from)] without duplicates: every class of c20_names for every name
+    (whole pools for the scattering / element names; fixed + always + one seeded pool member per class for the
+    3557 isotope-mass names)"""
     seen = set()
-    checked = 0
+    out = []
     for t in tabs:
         for r in tabs[t]:
-            for v in near(r[0]):
-                if v in seen:
-                    continue
-                seen.add(v)
-                checked += 1
-                if v not in first['scat']:
-                    try:
-                        p = ScatteringParams.for_isotope(v)
-                        fail('scat:near-miss:accepted', f'ScatteringParams.for_isotope({v!r}) (near miss of {r[0]!r}, not a first-'
-                             f'column name) answered with {p}', {'api': 'scat', 'name': v, 'derived_from': r[0],
-                                                                 'required': 'an exception'})
-                    except Exception:
-                        pass
-                if v not in first['weight'] and v not in first['mass']:
-                    try:
-                        a = Atom.for_isotope(v)
-                        fail('atom:near-miss:accepted', f'Atom.for_isotope({v!r}) (near miss of {r[0]!r}, in neither table) '
-                             f'answered with {a}', {'api': 'atom', 'name': v, 'derived_from': r[0], 'required': 'an exception'})
-                    except Exception:
-                        pass
+            n = r[0]
+            if not n:
+                continue
+            vs = near_misses(n, rng, 1) if t == 'mass' else near_misses(n)
+            for kind, v in vs:
+                if v not in seen:
+                    seen.add(v)
+                    out.append((v, kind, n))
+    return out
+
+
+def check_near(tabs, rng, chunk):
+    first = {t: {r[0] for r in tabs[t]} for t in tabs}
+    checked = 0
+    for v, kind, n in near_names(tabs, rng)[chunk[0]::chunk[1]]:
+        checked += 1
+        if v not in first['scat']:
+            try:
+                p = ScatteringParams.for_isotope(v)
+                fail(f'scat:{kind}:accepted', f'ScatteringParams.for_isotope({v!r}) ({kind} near miss of {n!r}, not a first-'
+                     f'column name) answered with {p}', {'api': 'scat', 'name': v, 'kind': kind, 'derived_from': n,
+                                                         'required': 'an exception'})
+            except Exception:
+                pass
+        if v not in first['weight'] and v not in first['mass']:
+            try:
+                a = Atom.for_isotope(v)
+                fail(f'atom:{kind}:accepted', f'Atom.for_isotope({v!r}) ({kind} near miss of {n!r}, in neither table) '
+                     f'answered with {a}', {'api': 'atom', 'name': v, 'kind': kind, 'derived_from': n,
+                                           'required': 'an exception'})
+            except Exception:
+                pass
     return checked
 
 
 def si(var):
+    """(SI values as a float array, base-unit powers)"""
     u = unit_info(var.unit)
-    return float(var.value) * int(u['mult'][0]) / int(u['mult'][1]), u['dims']
+    return np.asarray(var.values, dtype=np.float64) * (int(u['mult'][0]) / int(u['mult'][1])), u['dims']
 
 
-def check_attenuation(rng):
-    n_units = ['1/angstrom^3', '1/m^3', '1/cm^3', '1/nm^3']
-    a_units = ['barn', 'fm^2', 'm^2', 'angstrom^2', 'cm^2']
-    l_units = ['angstrom', 'nm', 'm', 'mm', 'cm']
+N_UNITS = [('1/angstrom^3', 1e30), ('1/m^3', 1.0), ('1/cm^3', 1e6), ('1/nm^3', 1e27)]
+A_UNITS = [('barn', 1e-28), ('fm^2', 1e-30), ('m^2', 1.0), ('angstrom^2', 1e-20), ('cm^2', 1e-4), ('mm^2', 1e-6)]
+L_UNITS = [('angstrom', 1e-10), ('nm', 1e-9), ('m', 1.0), ('mm', 1e-3), ('cm', 1e-2), ('km', 1e3), ('um', 1e-6),
+           ('pm', 1e-12), ('fm', 1e-15)]
+L_FINE = [('angstrom', 1e-10), ('nm', 1e-9), ('pm', 1e-12), ('fm', 1e-15), ('pm', 1e-12), ('fm', 1e-15)]
+
+
+def loguniform(rng, lo, hi):
+    return math.exp(rng.uniform(math.log(lo), math.log(hi)))
+
+
+def quantity(rng, si_values, units, dtype, dim):
+    """the SI values in a random unit of `units` with the given dtype (integers: whole numbers >= 1)"""
+    name, mult = rng.choice(units)
+    vals = [v / mult for v in si_values]
+    if dtype.startswith('int'):
+        vals = [max(1, min(2000000000, int(round(v)))) for v in vals]
+    arr = np.array(vals).astype(dtype)
+    if dim is None:
+        return sc.scalar(arr[0], unit=name, dtype=dtype)
+    return sc.array(dims=[dim], values=arr, unit=name, dtype=dtype)
+
+
+def check_attenuation(rng, n_cases=1500):
     checked = 0
-    for _ in range(300):
-        n = sc.scalar(math.exp(rng.uniform(-3, 3)), unit=rng.choice(n_units))
-        ss = sc.scalar(math.exp(rng.uniform(-3, 3)), unit=rng.choice(a_units))
-        sa = sc.scalar(math.exp(rng.uniform(-3, 3)), unit=rng.choice(a_units))
-        wl = sc.scalar(math.exp(rng.uniform(-3, 3)), unit=rng.choice(l_units))
+    for _ in range(n_cases):
+        wl_dtype = rng.choice(['float64', 'float64', 'float32', 'int64', 'int64', 'int32'])
+        dim = rng.choice([None, None, 'wavelength'])
+
+        def dt():
+            return rng.choice(['float64', 'float64', 'float64', 'float32', 'int64'])
+        n = quantity(rng, [loguniform(rng, 1e26, 1e30)], N_UNITS, dt(), None)
+        ss = quantity(rng, [loguniform(rng, 1e-30, 1e-25)], A_UNITS, dt(), None)
+        sa = quantity(rng, [loguniform(rng, 1e-31, 1e-24)], A_UNITS, dt(), None)
+        wl = quantity(rng, [loguniform(rng, 2e-11, 3e-9) for _ in range(1 if dim is None else 4)],
+                      L_FINE if wl_dtype.startswith('int') else L_UNITS, wl_dtype, dim)
         p = ScatteringParams(isotope='X', total_scattering_cross_section=ss, absorption_cross_section=sa)
-        desc = {'n': str(n.value) + ' ' + str(n.unit), 'sigma_s': str(ss.value) + ' ' + str(ss.unit),
-                'sigma_a': str(sa.value) + ' ' + str(sa.unit), 'wavelength': str(wl.value) + ' ' + str(wl.unit)}
+
+        def d(v):
+            return {'values': np.asarray(v.values).reshape(-1).tolist(), 'unit': str(v.unit), 'dtype': str(v.dtype)}
+        desc = {'n': d(n), 'sigma_s': d(ss), 'sigma_a': d(sa), 'wavelength': d(wl)}
+        cls = f'wavelength-{wl_dtype}'
         checked += 1
         try:
             r = Material(scattering_params=p, effective_sample_number_density=n).attenuation_coefficient(wl)
+            got, dims = si(r)
+            got = got.reshape(-1)
         except Exception as ex:
-            fail('attenuation:raises', f'attenuation_coefficient raises {type(ex).__name__}: {ex} on {desc}', {'case': desc})
+            fail(f'attenuation:raises:{cls}', f'attenuation_coefficient raises {type(ex).__name__}: {ex} on {desc}',
+                 {'case': desc, 'required': 'n*(sigma_s + sigma_a*lambda/(1.7982 angstrom)) in inverse length'})
             continue
-        got, dims = si(r)
-        want = si(n)[0] * (si(ss)[0] + si(sa)[0] * si(wl)[0] / 1.7982e-10)
-        if dims != [-1, 0, 0, 0, 0, 0, 0, 0, 0] or not math.isclose(got, want, rel_tol=1e-9):
-            fail('attenuation:formula', f'attenuation_coefficient returns {r.value} {r.unit} = {got} (SI, dims {dims}) where '
-                 f'n*(sigma_s + sigma_a*lambda/1.7982 angstrom) = {want} 1/m on {desc}',
-                 {'case': desc, 'impl_si': got, 'required_si': want})
+        want = (si(n)[0] * (si(ss)[0] + si(sa)[0] * si(wl)[0] / 1.7982e-10)).reshape(-1)
+        single = any(str(v.dtype) == 'float32' for v in (n, ss, sa, wl))
+        tol = 1e-5 if single else 1e-9
+        ok = (dims == [-1, 0, 0, 0, 0, 0, 0, 0, 0] and got.shape == want.shape
+              and all(math.isclose(g, w, rel_tol=tol) for g, w in zip(got.tolist(), want.tolist())))
+        if not ok:
+            fail(f'attenuation:formula:{cls}',
+                 f'attenuation_coefficient returns {np.asarray(r.values).reshape(-1).tolist()} {r.unit} = {got.tolist()} '
+                 f'(SI, dims {dims}) where n*(sigma_s + sigma_a*lambda/1.7982 angstrom) = {want.tolist()} 1/m on {desc}',
+                 {'case': desc, 'impl_si': got.tolist(), 'required_si': want.tolist(),
+                  'required': 'n*(sigma_s + sigma_a*lambda/(1.7982 angstrom)) in inverse length (rel. 1e-9; 1e-5 with a '
+                              'float32 operand)'})
     return checked
 
 
@@ -285,9 +345,17 @@ def main():
     for t, fn, skip in TABLES:
         tabs[t] = [l.split(',') for l in read_lines(cur_dir, fn)[skip:]]
     checked = {}
-    for label, f in (('rows', lambda: check_rows(tabs)), ('near_misses', lambda: check_near(tabs)),
-                     ('attenuation', lambda: check_attenuation(rng)),
+    steps = req.get('steps') or ['rows', 'near_misses', 'attenuation', 'snapshot_differences']
+    chunk = req.get('chunk') or [0, 1]
+    # a broken obligation about material.py / the attenuation proof: spend more cases there
+    broken = ' '.join(str(b) for b in req.get('broken') or [])
+    n_att = 6000 if ('material.py' in broken or 'TieAtt' in broken or 'attenuation' in broken) else 1500
+    for label, f in (('rows', lambda: check_rows(tabs)),
+                     ('near_misses', lambda: check_near(tabs, random.Random(req.get('seed', 0)), chunk)),
+                     ('attenuation', lambda: check_attenuation(rng, n_att)),
                      ('snapshot_differences', lambda: check_snapshot(req['snapshot'], cur_dir))):
+        if label not in steps:
+            continue
         try:
             checked[label] = f()
         except Exception as ex:   # e.g. a malformed table makes the harness-side parsing fail
@@ -295,7 +363,7 @@ def main():
             checked[label] = f'crashed: {type(ex).__name__}: {ex}'
             fail(f'search:{label}:crash', f'search step {label} crashed: {traceback.format_exc()[-600:]}',
                  {'step': label}, cap=1)
-    print('RESULT ' + json.dumps({'failures': failures, 'checked': checked, 'per_class': per_class}))
+    print('RESULT ' + json.dumps({'failures': failures, 'checked': checked, 'per_class': per_class}, default=repr))
 
 
 if __name__ == '__main__':
